@@ -60,6 +60,20 @@ def gen_world(rng, profile=None):
         return fn
     schedules = {k: mk_sched(*v) for k, v in sched_defs.items()}
     mechs = {'bev': ml.mock_bev(), 'ice': ml.mock_ice()}
+    # a battery model whose charge curve does not taper to zero at 100 % (a constant-power tail, as measured curves often have): the
+    # last integration slice can overshoot the capacity unless add_energy caps it.  Own stream.
+    if random.Random(f'flat-tail|{t0}|{delta}|{cancel}').random() < 0.2:
+        import yaml as _yaml
+        from pathlib import Path as _Path
+        from pkg_resources import resource_filename as _rf
+        from nrel.hive.model.vehicle.mechatronics.bev import BEV as _BEV
+        from nrel.hive.model.vehicle.mechatronics.powercurve.tabular_powercurve import TabularPowercurve as _TPC
+        data = _yaml.safe_load(_Path(_rf('nrel.hive.resources.powercurve', 'normalized.yaml')).open())
+        data['power_curve'] = [dict(row, power_kw=max(row['power_kw'], 0.35)) if row['energy_kwh'] >= 0.8 else row for row in data['power_curve']]
+        b0 = mechs['bev']
+        mechs['bev'] = _BEV(mechatronics_id='bev', battery_capacity_kwh=b0.battery_capacity_kwh, idle_kwh_per_hour=b0.idle_kwh_per_hour,
+                            powertrain=b0.powertrain, powercurve=_TPC(data=data, nominal_max_charge_kw=50, battery_capacity_kwh=b0.battery_capacity_kwh),
+                            nominal_watt_hour_per_mile=b0.nominal_watt_hour_per_mile, charge_taper_cutoff_kw=b0.charge_taper_cutoff_kw)
     env = ml.mock_env(config=cfg, mechatronics=mechs, chargers=all_chargers(), schedules=schedules, fleet_ids=frozenset(fleets))
     # stations
     stations, bases, vehicles = [], [], []
